@@ -64,11 +64,12 @@ Section Graph.
       end
     end.
 
-  Definition relax_vertex (row : list (option Z)) (u : nat) : list (option Z) :=
-    fold_left (relax_edge u) (nth u nbrs []) row.
+  (* every edge (u,v) of the graph, in the order of the neighbour lists *)
+  Definition all_edges (N : nat) : list (nat * nat) :=
+    flat_map (fun u => map (fun v => (u, v)) (nth u nbrs [])) (seq 0 N).
 
   Definition bf_round (N : nat) (row : list (option Z)) : list (option Z) :=
-    fold_left relax_vertex (seq 0 N) row.
+    fold_left (fun r e => relax_edge (fst e) r (snd e)) (all_edges N) row.
 
   Fixpoint bf_iter (N : nat) (rounds : nat) (row : list (option Z)) : list (option Z) :=
     match rounds with
